@@ -48,3 +48,79 @@ def c13(tier, seed):
               desc="band_on_hello_received bookkeeping"),
     ]
     return qs
+
+
+# ------------------------------------------------------------------ C14
+@prop("C14", ["clock readings: last_ts <= now (monotone clock); now < 2^62 in the tick query",
+              "mapping automaton built by the real init_automata_mapping, then state/last_ts overwritten symbolically"])
+def c14(tier, seed):
+    b = {"state": "{0,1,2}", "input": "[-128,255]", "last_ts,now": "any uint64 with last_ts<=now (every elapsed value)"}
+    return [
+        Query("c14_step", "c14_mapping.c", "h_step", unwind=14, bounds=b, backends=("minisat", "cadical"),
+              desc="switch_state_mapping single step vs reference transition function; recursion depth <= 14 asserted"),
+        Query("c14_tick", "c14_mapping.c", "h_tick", unwind=17, bounds=dict(b, table="16 arbitrary entries or no table", t0="inactivity timer armed at t0<=now"),
+              backends=("cadical", "minisat", "kissat"),
+              desc="automata_tick after mapping_reset_inactive_timeout: >30 s => idle, ctc 0, table empty; <30 s => untouched"),
+    ]
+
+
+# ------------------------------------------------------------------ C15
+@prop("C15", ["events restricted to the session-event alphabet 0..7 (values outside are unspecified by the property)",
+              "session automaton built by the real init_automata_session, then state/last_ts overwritten symbolically"])
+def c15(tier, seed):
+    b = {"state": "{0..3}", "event": "[0,7]", "last_ts,now": "any uint64 with last_ts<=now"}
+    return [
+        Query("c15_step", "c15_session.c", "h_step", unwind=17, bounds=b, backends=("minisat", "cadical"),
+              desc="switch_state_session single step vs reference life-cycle"),
+    ]
+
+
+# ------------------------------------------------------------------ C16
+@prop("C16", ["pre-state: any 16-slot table satisfying the representation invariant R (count = #valid, unique (mac,generation) among valid, all_complete exact, last_activity <= now)",
+              "now < 2^62 s", "completion updates are performed as the daemons do: set entry->complete then session_table_update_complete_status"])
+def c16(tier, seed):
+    b = {"table": "16 fully symbolic entries satisfying R", "key": "mac 2^48 x generation 2^16 x seq 2^16", "slot index j": "symbolic 0..15 (universally quantified)"}
+    qs = []
+    for op in ("add", "find", "remove", "clear", "complete", "expiry"):
+        qs.append(Query("c16_" + op, "c16_table.c", "h_" + op, unwind=17, bounds=b, backends=("kissat", "cadical", "minisat"),
+                        timeout=900, mem_gb=10, desc="session table operation '%s' from an arbitrary R-state vs declarative spec; R re-asserted" % op))
+    return qs
+
+
+# ------------------------------------------------------------------ C12
+@prop("C12", ["clock: now_ms >= 1 (0 is the 'never sent' sentinel of last_hello_tx_ms), now < 2^62; last_tx <= now_ms (the timestamp is only ever written with a clock reading)",
+              "now_ms and now_s are independent symbolic values (over-approximates every relation between the two clocks)",
+              "automata from the real constructors, every mutable field then overwritten with symbolic values; table count/all_complete NOT assumed consistent",
+              "the Darwin glue (darwin-main.c) is not compiled here; its wiring (shared LastHelloTxMs, send_hello callback) is modelled by a recording callback and a harness-owned timestamp"])
+def c12(tier, seed):
+    b = {"mapping": "state 0..2, any timestamps/ctc", "enumeration": "state 0..2, arbitrary band_state", "table": "16 arbitrary entries, arbitrary count/all_complete",
+         "clock": "now_ms in [1,2^62), now_s in [0,2^62), independent", "last_tx": "[0,now_ms]", "port": "interface/timestamp pointer present or NULL"}
+    qs = [
+        Query("c12_tick", "c12_tick.c", "h_tick", unwind=17, bounds=b, backends=("cadical", "kissat", "minisat"), timeout=900, mem_gb=10,
+              desc="one automata_tick from an arbitrary state with recording send_hello: <=1 send, purposeful, >=1000 ms since last, timestamp := now, inactivity rule"),
+        Query("c12_others", "c12_tick.c", "h_others", unwind=17, bounds=dict(b, op="symbolic choice of 18 other public operations"), backends=("cadical", "minisat"), timeout=600,
+              desc="no other public automata/table/band/mapping operation sends or writes the timestamp"),
+    ]
+    if tier == "thorough":
+        qs.append(Query("c12_two_ticks", "c12_tick.c", "h_two_ticks", unwind=17, bounds=dict(b, second_tick="arbitrary monotone clock advance"), backends=("cadical", "kissat", "minisat"),
+                        timeout=1800, mem_gb=16, desc="two ticks with arbitrary clock advance in between: consecutive periodic Hellos >= 1000 ms apart"))
+    return qs
+
+
+# ------------------------------------------------------------------ C11
+@prop("C11", ["frame handed over in an MTU-sized heap object; station count restricted to what that object holds (36+6*count <= MTU) - larger counts are the known finding listed under C01",
+              "session table: arbitrary 16 entries with at most one valid entry matching the frame's (real source, generation) (table invariant of C16)",
+              "Discover with count = 0 is left unconstrained (the property speaks of non-empty lists)"])
+def c11(tier, seed):
+    qs = []
+    mtus = [576] if tier == "quick" else [576, 1500]
+    for m in mtus:
+        nst = (m - 36) // 6
+        b = {"frame": "%d arbitrary bytes (every opcode 0..255)" % m, "station count": "0..%d" % nst, "own address": "2^48", "table": "16 arbitrary entries or none", "position": "symbolic 0..count-1"}
+        qs.append(Query("c11_classify_%d" % m, "c11_classify.c", "h_classify", defines=["MTU=%d" % m], unwind=nst + 2, bounds=b,
+                        backends=("cadical", "minisat", "kissat"), timeout=1200, mem_gb=12,
+                        desc="derive_session_event vs byte-level reference for every opcode, count, table content"))
+        qs.append(Query("c11_position_%d" % m, "c11_classify.c", "h_position", defines=["MTU=%d" % m], unwind=nst + 2, bounds=b,
+                        backends=("cadical", "minisat", "kissat"), timeout=1200, mem_gb=12,
+                        desc="own address at a symbolic list position is recognised"))
+    return qs
